@@ -4,7 +4,7 @@
 # sources, fails with the patch, the pinned suite still passes with the patch. Then stores it
 # under /verif/seeded/<id>/ (patch.diff, demo files, NOTES/RUN, meta.json is written by hand).
 set -u
-ID="$1"; DEMO="$2"; WT=/tmp/seed_$ID; D=$WT/deliver
+ID="$1"; DEMO="$2"; WT=${3:-/tmp/seed_$ID}; DEST=${4:-$ID}; D=$WT/deliver
 export CARGO_TARGET_DIR=$WT/target CARGO_NET_OFFLINE=true
 cd $WT || exit 2
 git checkout -q -- . 2>/dev/null
@@ -25,9 +25,9 @@ FAILED=$(grep -E "^test result" $WT/confirm_suite.log | awk '{s+=$6} END {print 
 git checkout -q -- .
 echo "CONFIRM $ID: demo clean rc=$RC_CLEAN, demo patched rc=$RC_PATCHED, suite passed=$PASSED failed=$FAILED"
 if [ $RC_CLEAN -eq 0 ] && [ $RC_PATCHED -ne 0 ] && [ "$PASSED" = "31" ] && [ "$FAILED" = "0" ]; then
-  mkdir -p /verif/seeded/$ID
-  cp -r $D/. /verif/seeded/$ID/
-  echo "CONFIRM $ID: OK -> /verif/seeded/$ID"
+  mkdir -p /verif/seeded/$DEST
+  cp -r $D/. /verif/seeded/$DEST/
+  echo "CONFIRM $ID: OK -> /verif/seeded/$DEST"
 else
   echo "CONFIRM $ID: NOT CONFIRMED"
 fi
